@@ -134,7 +134,8 @@ fn run_job(text: &str, scratch: &PathBuf) -> String {
                 messages: vec![],
             };
             let out = scratch.join("out.hex");
-            let _ = fs::remove_file(&out);
+            // the path already holds a (longer) file, as after an earlier, larger build: the writer has to replace it, not overwrite its head
+            fs::write(&out, ":10000000".repeat(40_000)).unwrap();
             let r = if which == "code" {
                 write_code_hex(out.clone(), &br)
             } else {
